@@ -53,6 +53,27 @@ def invariant(v, where, tag):
             check(conforms(val, T), "managed attribute conforms to its annotation", f"{tag}/nonconforming-{cname}.{a}", lambda: f"{where}: {cname}.{a} = {val!r}")
 
 
+def _restore_process_state():
+    """Process-global state outlives a path of the exploration: a fault injected between the statements of the module-copy
+    protection itself (the recorded C20 finding) leaves the ModuleType entry in copyreg.dispatch_table and a non-zero
+    reference count behind, and every LATER path of the same worker then executes fewer statements there than a fresh
+    interpreter does (the k-th statement drifts; reported by the witness cross-check). Put both back before each path."""
+    import copyreg
+    import types
+
+    copyreg.dispatch_table.pop(types.ModuleType, None)
+    try:
+        from spec_classes.utils import mutation
+
+        for v in list(vars(mutation).values()):
+            inst = getattr(v, "__instance__", None) if isinstance(v, type) else None
+            if inst is not None and hasattr(inst, "refcount"):
+                inst.refcount = 0
+                inst.patched_table = False
+    except Exception:  # a seeded change may have renamed these: nothing to restore then
+        pass
+
+
 def make(prop, fam, tmpl, opname, attr=None, conform=True, inplace_mode="sym", fault=0, fault_shard=None):
     """prop in {"C01","C03","C04"}; inplace_mode: "sym" (symbolic), False, True."""
     NS = FAMILIES[fam]
@@ -120,6 +141,7 @@ def make(prop, fam, tmpl, opname, attr=None, conform=True, inplace_mode="sym", f
             from vf import instrument
 
             assume(0 <= kf <= fault)  # kf == 0: no fault (also used by the warm-up to build lazily generated methods first)
+            _restore_process_state()
             if fault_shard is not None and kf != 0:
                 assume(kf % fault_shard[1] == fault_shard[0])  # shards partition the abort points for parallelism
             if kf != 0:
